@@ -17,6 +17,7 @@
 #include "jls/wr_fsr.h"
 #include "jls/core.h"
 #include "jls/bit_shift.h"
+#include "jls/tmap.h"
 #include "jls/cdef.h"
 #include "jls/datatype.h"
 #include "jls/wr_prv.h"
@@ -282,6 +283,10 @@ int32_t jls_fsr_close(struct jls_core_fsr_s * self) {
             if (rc) {
                 JLS_LOGE("summary_close(%d) returned %" PRIi32, (int) i, rc);
             }
+        }
+        if (self->tmap) {
+            jls_tmap_free(self->tmap);
+            self->tmap = NULL;
         }
         free(self);
     }
